@@ -4,9 +4,13 @@
 
 package astra
 
-import "crypto/x509"
+import (
+	"crypto/x509"
+	"time"
+)
 
 var _ *x509.CertPool // contracts name types of crypto/x509
+var _ time.Time
 
 // Bundle loading as seen from proxy.Run: reads files / the network, builds fresh objects, does not
 // touch the caller's configuration. (Their own behaviour is the subject of C19.)
@@ -54,13 +58,19 @@ var _ *x509.CertPool // contracts name types of crypto/x509
 //@   local $vpRoots *x509.CertPool = nil
 //@   local $vpDNSName string = ""
 //@   local $vpInter *x509.CertPool = nil
+//@   local $vpNowCalled bool = false
+//@   local $vpNow time.Time = time.Time{}
+//@   local $vpTime time.Time = time.Time{}
 //@   requires len(rawCerts) >= 1 && tlsConfig != nil && bundle != nil
 //@   after x509.ParseCertificate#* set $vpParseFailed = $vpParseFailed || result1 != nil
-//@   before x509.Certificate.Verify#* set $vpVerified = true; $vpRoots = arg1.Roots; $vpDNSName = arg1.DNSName; $vpInter = arg1.Intermediates
+//@   before x509.Certificate.Verify#* set $vpVerified = true; $vpRoots = arg1.Roots; $vpDNSName = arg1.DNSName; $vpInter = arg1.Intermediates; $vpTime = arg1.CurrentTime
+//@   after time.Now#* set $vpNowCalled = true; $vpNow = result
 //@   after x509.Certificate.Verify#* set $vpAccepted = (result1 == nil)
 //@   ensures accepts-only-verified: result == nil ==> !$vpParseFailed && $vpVerified && $vpAccepted
 //@   ensures verified-against-bundle: $vpVerified ==> $vpRoots == tlsConfig.RootCAs && $vpDNSName == bundle.Host
 //@   ensures rejects-unverified: $vpVerified && !$vpAccepted ==> result != nil
+// "verifies ... at the current time": the verification time is read from the clock during this handshake
+//@   ensures verified-now: $vpVerified ==> $vpNowCalled && $vpTime == $vpNow
 // only the chain presented in this handshake helps the leaf: the pool of intermediates is created
 // by this call (nothing remembered from earlier handshakes) and holds the non-leaf certificates
 //@   ensures intermediates-of-this-handshake: $vpVerified ==> $vpInter != nil && fresh($vpInter) && $vpInter.$added == len(rawCerts) - 1
